@@ -136,6 +136,8 @@ func EscAttr(s string) string {
 			b.WriteString("&lt;")
 		case '"':
 			b.WriteString("&quot;")
+		case '>':
+			b.WriteString("&gt;")
 		case '\t':
 			b.WriteString("&#x9;")
 		case '\n':
